@@ -260,7 +260,9 @@ PROPS = {
               'induction). The two lookup arms (format! + HashMap<String,_>) are trusted; substitution equivalence of whole programs, array sizes / '
               'loop counts / party numbers following the constants and the reporting of missing or mistyped constants (compile_with_constants) are '
               'NOT under contract; a bounded differential through compile_with_constants + eval compares random constant expressions over 9 integer '
-              'types with substitution semantics and checks missing / mistyped / extra constants (error, never a panic).',
+              'types with substitution semantics, programs whose array sizes / loop trip counts / party counts are constant expressions over '
+              'external usize values with the literal-substituted program (shape and outputs), and checks missing / mistyped / extra constants '
+              '(error, never a panic).',
         note='Trusted: lookup arms (uninterpreted); std::cmp::max / min specification (assume_specification); vstd. Rules R5, R6, R7.',
         title='const expressions: literal / min / max / wrapping + and - arms equal the spec evaluation, for all trees and assignments (3 instances)',
         unverified=['ExternalValue / ConstExprIdent lookup arms', 'compile_with_constants (const_deps, const_sizes, error reporting)',
